@@ -615,7 +615,16 @@ class Gen:
             # at a random position among the terms (work done before it and work left to do after it)
             v = r.choice(NUM_COLS)
             fn = r.choice(["uf", "uf", "ut"])  # plain user function / user-registered stateful transform
-            items.insert(r.randrange(len(items) + 1), Item(f"{fn}({v})", [v], fams=[fn]))
+            if r.random() < 0.35:
+                # ... on the expression side of a group-specific term: the other operation runs in the middle of
+                # the GROUP part (between the terms of one factor and those of another)
+                factor = r.choice(["g", "h"])
+                etext = r.choice([f"{fn}({v})", f"0 + {fn}({v})"])
+                it = Item(f"({etext} | {factor})", [v, factor], (), ["group", "group_transform", fn],
+                          group={"effect_cats": [], "factor": [factor], "factor_text": factor})
+            else:
+                it = Item(f"{fn}({v})", [v], fams=[fn])
+            items.insert(r.randrange(len(items) + 1), it)
         # response
         ropts = [("y", 6)]
         if "resp_level" in fam:
